@@ -45,6 +45,14 @@ def check(tier):
     from . import c03_corpus, c05_plain
 
     c03_corpus.run(rep, tier, names=("c05_value",))
+    from .. import corpus, deviate
+    from .c03 import deviation_bases
+
+    dsyms = alphabet("NONE K1 STR ELIST EDICT ESET ETUP MARK TUPLE T2 LIST DICT FROZENSET APPEND APPENDS SETITEM SETITEMS ADDITEMS POP DUP "
+                     "MEMOIZE BINGET0 BINGET1 REDUCE NEWOBJ BUILD".split())
+    plain = [(f"plain[{i}]/{t}", b) for i, v in enumerate(corpus.plain_values("quick")[30::41 if tier == "quick" else 5])
+             for t, b in corpus.pickles_of(v, protocols=(0, 2, 4), unframed=False) if len(b) < 300]
+    deviate.run(PROP, deviation_bases(tier) + plain, dsyms, [(oracles, "c05_value")], rep)
     c05_plain.run(rep, tier)
     rep.assumptions += [
         "stub world as in C03; values compared structurally (floats by repr, dict/set order-insensitive), sharing compared through value",
